@@ -147,6 +147,8 @@ def check(rep, F, tier, replay=None):
                 rep.lost("MintBuilder::checked_mint_sum: the accepted range is not derivable as two constant bounds (lo=%s hi=%s)" % (lo, hi))
             elif lo < -(1 << 64) or hi > (1 << 64) - 1:
                 rep.violation("INT-range", "MintBuilder::checked_mint_sum|range|%d..%d" % (lo, hi), "MintBuilder::checked_mint_sum returns Ok for sums in %d ..= %d; the range of an Int is -2^64 ..= 2^64 - 1: an accumulated mint amount of %s is stored as an Int that the CBOR writer narrows (2^64 -> 0) instead of being refused with 'Mint amount overflow'" % (lo, hi, "2^64" if hi > (1 << 64) - 1 else "below -2^64"), {})
+    from ruleutil import arith_unwrap_rule
+    arith_unwrap_rule(rep, F)
     # ORDER tables
     order_tables(rep, F)
     # ROUND-prim: a function that promises a rounding mode divides with the primitive of that name (truncating `/` differs from
